@@ -36,7 +36,8 @@ BUDGET = {'quick': 200, 'thorough': 1500}
 
 def shards(tier):
     n = 2500 if tier == 'quick' else 120000
-    return [{'kind': 'hist', 'n': n, 'big': tier == 'thorough' and i % 2 == 1} for i in range(16)]
+    return ([{'kind': 'hist', 'n': n, 'big': tier == 'thorough' and i % 2 == 1} for i in range(16)] +
+            [{'kind': 'fault', 'n': 1500 if tier == 'quick' else 40000} for _ in range(2)])
 
 
 def check_case(case, col=None):
@@ -294,6 +295,134 @@ def replay_on_popen(case):
             pass
 
 
+# ---------------------------------------------------------------------------
+# fault tier: an expect-family call is interrupted by an exception that is neither EOF nor TIMEOUT (a signal handler
+# raising, Ctrl-C, an OSError of the read) after part of the stream has arrived; the calls that follow must still
+# hand back the whole stream, once
+
+class HandlerRaised(Exception):
+    """what a signal handler of the application raises in the middle of a read"""
+
+
+FAULTS = {'OSError': lambda: OSError(4, 'injected fault'), 'HandlerRaised': lambda: HandlerRaised('injected fault'),
+          'RuntimeError': lambda: RuntimeError('injected fault')}
+
+
+class FaultSpawn(scripted.ScriptedSpawn):
+    """script item ('x', name): this read raises the injected exception instead of returning anything"""
+
+    def read_nonblocking(self, size=1, timeout=-1):
+        if self.script and self.script[0][0] == 'x':
+            item = self.script.pop(0)
+            self.reads += 1
+            raise FAULTS[item[1]]()
+        return scripted.ScriptedSpawn.read_nonblocking(self, size, timeout)
+
+
+FAULT_SYMS = ['a', 'b', ' ', '\n', '\r\n', 'é', '€', '語', '\U0001f600']
+
+
+@st.composite
+def fault_cases(draw):
+    text_mode = draw(st.booleans())
+    s = ''.join(draw(st.lists(st.sampled_from(FAULT_SYMS), min_size=1, max_size=10)))
+    data = s.encode('utf-8')
+    n = len(data)
+    cuts = sorted(draw(st.lists(st.integers(0, n), min_size=1, max_size=5)))
+    nf = draw(st.sampled_from([1, 1, 2]))
+    return {'kind': 'fault', 'enc': 'utf-8' if text_mode else None, 'stream': data, 'cuts': cuts,
+            'faults': sorted(draw(st.lists(st.integers(0, len(cuts)), min_size=nf, max_size=nf, unique=True))),
+            'exc': draw(st.sampled_from(sorted(FAULTS))),
+            'op': draw(st.sampled_from(['expect', 'expect_exact', 'expect_list', 'readline', 'read_n'])),
+            'w': draw(st.sampled_from([-1, None, 2])),
+            'maxread': draw(st.sampled_from([2000, 2000, 1, 3])),
+            'drain': draw(st.sampled_from(['read', 'expect_eof', 'readlines']))}
+
+
+def check_fault_case(case, col=None):
+    import re
+    from pexpect.exceptions import EOF, TIMEOUT
+    text_mode = case['enc'] is not None
+    T = str if text_mode else bytes
+    script = scripted.build_script(case['stream'], case['cuts'], {})
+    # the k-th chunk is followed by a read that raises
+    out = []
+    for i, it in enumerate(script):
+        out.append(it)
+        if i in case['faults']:
+            out.append(('x', case['exc']))
+    kw = dict(maxread=case['maxread'], timeout=30)
+    if text_mode:
+        kw['encoding'] = 'utf-8'
+    sp = FaultSpawn(out, tail='eof', **kw)
+    never = '\x00never' if text_mode else b'\x00never'
+    want = case['stream'].decode('utf-8') if text_mode else case['stream']
+    got = T()
+    interrupted = 0
+    arrived_before_fault = False
+    inside_char = False
+    for attempt in range(200):
+        if not any(it[0] == 'x' for it in sp.script):
+            break                   # every fault has happened: the drain takes the rest
+        try:
+            op = case['op']
+            if op == 'expect':
+                sp.expect([re.escape(never)], searchwindowsize=case['w'])
+            elif op == 'expect_exact':
+                sp.expect_exact([never], searchwindowsize=case['w'])
+            elif op == 'expect_list':
+                sp.expect_list([re.compile(re.escape(never))], searchwindowsize=case['w'])
+            elif op == 'readline':
+                got += sp.readline()
+                continue
+            else:
+                got += sp.read(3)
+                continue
+            raise Violation('fault:impossible-match', 'a pattern that is not in the stream matched: before=%r after=%r' % (sp.before, sp.after))
+        except EOF:
+            got += sp.before
+            break
+        except TIMEOUT as e:
+            raise Violation('fault:unexpected-TIMEOUT', 'TIMEOUT on a scripted stream that ends in EOF: %s' % str(e)[:80])
+        except (OSError, HandlerRaised, RuntimeError) as e:
+            if 'injected' not in str(e):
+                raise
+            interrupted += 1
+            if any(sp.delivered):
+                arrived_before_fault = True
+                nbytes = len(''.join(sp.delivered).encode('utf-8')) if text_mode else 0
+                if text_mode and sum(len(d) for d in sp.delivered) and nbytes < len(case['stream']):
+                    consumed = sum(len(it[1]) for it in script[:len(sp.delivered)])
+                    inside_char = inside_char or consumed != nbytes
+    where = 'after %d interrupted %s call(s) (%s raised by the read following chunk(s) %r of %r)' % (
+        interrupted, case['op'], case['exc'], case['faults'], [it[1] for it in script])
+    try:
+        if not sp._sticky_eof or sp.buffer or True:
+            if case['drain'] == 'read':
+                got += sp.read()
+            elif case['drain'] == 'expect_eof':
+                sp.expect(EOF)
+                got += sp.before
+            else:
+                got += T().join(sp.readlines())
+    except (EOF, TIMEOUT, UnicodeError) as e:
+        raise Violation('fault:drain-' + type(e).__name__, '%s: draining the rest of the stream raised %s: %s'
+                        % (where, type(e).__name__, str(e)[:100]))
+    if got != want:
+        raise Violation('fault:conservation', '%s: the calls handed back %r, the child wrote %r' % (where, got, want))
+    if col is not None:
+        if inside_char:
+            col.label('fault-inside-a-character')
+        if interrupted >= 2:
+            col.label('two-faults')
+        col.case(case, interrupted >= 1 and arrived_before_fault)
+
+
+def fault_body(case, col):
+    with case_watchdog(30, 'C01 fault history'):
+        check_fault_case(case, col)
+
+
 def body(case, col):
     with case_watchdog(30, 'C01 history'):
         check_case(case, col)
@@ -308,6 +437,9 @@ def body(case, col):
 
 def run_shard(spec, seed, idx, deadline_ts):
     col = Collector()
+    if spec.get('kind') == 'fault':
+        run_batches(fault_body, fault_cases(), spec['n'], seed * 1000 + idx, col, deadline_ts=deadline_ts)
+        return col
     big = spec.get('big')
     strat = e1.cases(max_calls=8 if big else 6, max_syms=24 if big else 14)
     run_batches(body, strat, spec['n'], seed * 1000 + idx, col, deadline_ts=deadline_ts)
@@ -315,6 +447,8 @@ def run_shard(spec, seed, idx, deadline_ts):
 
 
 def replay(case, spec=None):
+    if case.get('kind') == 'fault':
+        return check_fault_case(case)
     check_case(case)
     if not case['marks'] and case['tail'] == 'eof':
         replay_on_fd(case)
